@@ -170,9 +170,7 @@ class _Fallback(StubObj):
 
 
 def _notif_setup(it):
-    import os
-
-    fmt = FORMATS[it.ctx.choose(list(range(len(FORMATS))))] if os.environ.get("PYVC_TIER") == "thorough" else F.uint8
+    fmt = F.uint8  # (the handler hands the characteristic to from_bytes, used by contract: its format plays no role here)
     chars = [_Char(fmt, KNOWN_IIDS[0]), _Char(F.bool, KNOWN_IIDS[1])]
     situation = it.ctx.choose(["keyed", "no-key", "no-description"])
     key = _bkey_obj(it) if situation != "no-key" else None
